@@ -553,7 +553,20 @@ impl Scenario for Dual {
             let ctxname = CTX1_NAMES[eff_pfx];
             let dir = if brk { "break" } else { "make" };
             let tag = "";
-            if let Some(j) = lists_disagree(&s2, &s1) {
+            // a release Set 2 rejects although it decodes the same physical key's press: Set 2 can
+            // express this key, so "only Set 1 knows the code" does not excuse it
+            let mut iso_dis = lists_disagree(&s2, &s1);
+            if iso_dis.is_none() && brk && plain {
+                if let (Some(Res::Err(_)), Some(Res::Ev(k1, KeyState::Up))) = (s2.last(), s1.last()) {
+                    let mut fm = DynSet::new(2);
+                    let mk: Vec<Res> = encode_set2(pfx, code, false).iter().map(|b| Res::of(&fm.advance_state(*b))).collect();
+                    env.cov.api_calls += mk.len() as u64;
+                    if mk.last() == Some(&Res::Ev(*k1, KeyState::Down)) {
+                        iso_dis = Some(s2.len() - 1);
+                    }
+                }
+            }
+            if let Some(j) = iso_dis {
                 let sig = format!(
                     "c13/{}/{:02X}/{}{}/set2={}/set1={}",
                     ctxname,
